@@ -75,10 +75,9 @@ Definition no_exec : json * list gql_error := (JNull, []).
 (* ExecModel.execute is [Rejected REJ_OPERATION] for InvalidOperationError and
    [Rejected REJ_COERCION] when collect_fields rejects @skip/@include
    arguments.  The latter is rendered as the root-collection abort (data:
-   null + the CoercionError); C04's model carries no node for it, and still
-   has the pre-fix behaviour for a rejection inside a sub-selection (whole
-   request rejected, where the code now reports an error of the enclosing
-   field). *)
+   null + the CoercionError); C04's model carries no node for it.  A
+   rejection inside a sub-selection is an error of the enclosing field in
+   C04's model (complete_field), as in the code. *)
 Definition directive_coercion_error : gql_error := ELocated [] [] None.
 
 Definition pipeline_exec (doc : str) (fr : front) (ex : result) : outcome json :=
@@ -130,7 +129,8 @@ Definition doc_in_text (len : nat) (d : document) : Prop :=
 
 (* ---- obligated positions: where the executor completes a NonNull type to
    null, where a resolver raised the library's error, where argument coercion
-   failed.  Mirrors the traversal of ExecModel (same calls, same order);
+   failed, where the completion of a field was aborted by invalid directive
+   arguments in its sub-selection.  Mirrors the traversal of ExecModel (same calls, same order);
    reads types, resolver outcomes and completed values, never the errors. *)
 Section Obligations.
   Variable sch : schema.
@@ -185,6 +185,45 @@ Section Obligations.
           end
       end.
 
+    (* the field's completion was aborted by invalid @skip / @include arguments
+       in a sub-selection (CoercionError caught by the enclosing resolve_field):
+       the field itself is a failed field; positions already obligated by list
+       items completed before the abort keep their errors (they end up below
+       the nulled field) *)
+    Fixpoint obl_items_partial (f : path -> pv -> result) (fo fp : path -> pv -> list path)
+             (p : path) (i : N) (items : list pv) : list path :=
+      match items with
+      | [] => []
+      | x :: items' =>
+          match f (p ++ [PIdx i]) x with
+          | Ok _ => fo (p ++ [PIdx i]) x ++ obl_items_partial f fo fp p (N.succ i) items'
+          | _ => fp (p ++ [PIdx i]) x
+          end
+      end.
+
+    Fixpoint obl_value_partial (nodes : list selection) (t : tref) (p : path) (v : pv) {struct t} : list path :=
+      match t with
+      | RNonNull t' => obl_value_partial nodes t' p v
+      | RList t' =>
+          match v with
+          | PNone => []
+          | _ => match iter_items v with
+                 | None => []
+                 | Some items =>
+                     obl_items_partial (complete_value sch tyres sub_exec nodes t')
+                                       (obl_value nodes t') (obl_value_partial nodes t') p 0%N items
+                 end
+          end
+      | RNamed _ => []
+      end.
+
+    Definition obl_cfield (nodes : list selection) (t : tref) (p : path) (v : pv) : list path :=
+      match complete_value sch tyres sub_exec nodes t p v with
+      | Rejected k _ =>
+          if Nat.eqb k REJ_COERCION then obl_value_partial nodes t p v ++ [p] else []
+      | _ => obl_value nodes t p v
+      end.
+
     Definition obl_field (tname : str) (parent : pv) (k : fkind) (fd : fdef)
                (nodes : list selection) (p : path) : list path :=
       match nodes with
@@ -195,11 +234,11 @@ Section Obligations.
           | Ok args =>
               match k with
               | FIntrospection => []
-              | FTypename => obl_value nodes (f_type fd) p (PStr tname)
+              | FTypename => obl_cfield nodes (f_type fd) p (PStr tname)
               | FUser =>
                   match world p parent tname (f_name fd) args with
-                  | RVal v => obl_value nodes (f_type fd) p v
-                  | RDefault => obl_value nodes (f_type fd) p (default_resolve parent (f_pyname fd))
+                  | RVal v => obl_cfield nodes (f_type fd) p v
+                  | RDefault => obl_cfield nodes (f_type fd) p (default_resolve parent (f_pyname fd))
                   | RErr _ _ => [p]        (* failed field: the resolver raised ResolverError *)
                   | RExn => []
                   end
